@@ -2,6 +2,7 @@ package nc
 
 import (
 	"fmt"
+	"go/types"
 	"strings"
 
 	"golang.org/x/tools/go/ssa"
@@ -27,8 +28,10 @@ func rulesC16(c *Ctx) {
 	R.Rule("R4", "melt quote: insert only behind the melt amount limit on the stored amount", 1)
 	R.Rule("R5", "info: disabled exactly when max balance set and balance >= max; computed afresh per request", 3)
 	R.Rule("R6", "the issued total counts only what was handed out: swap stores signatures only after the spent-table insert succeeded (shared with C01.R3)", 1)
+	R.Rule("R7", "the limits the operations compare against are the configured ones: the limits field of the mint is written only at start-up, with the Limits of the configuration unmodified", 1)
 	c.vocabProblems("R1")
 	c.ruleSigsAfterSpent("R6")
+	c.c16LimitsAreConfigured()
 
 	// ---- R1
 	if sc := c.V.Schema; sc == nil {
@@ -342,5 +345,42 @@ func (c *Ctx) c16Info() {
 			}
 		}
 		R.Check("R5", c.P.FuncKey(h), "info response computed afresh on every request", c.P.Pos(h.Pos()), ok, "the info handler answers only with the result of a fresh info operation (the disabled flag depends on the live balance)", why2)
+	}
+}
+
+// c16LimitsAreConfigured: R7.
+func (c *Ctx) c16LimitsAreConfigured() {
+	R := c.R
+	n := 0
+	for _, f := range c.P.Funcs {
+		top := EnclosingTop(f)
+		if top.Pkg == nil || c.V.CoreType == nil || top.Pkg.Pkg != c.V.CoreType.Obj().Pkg() {
+			continue
+		}
+		o := c.P.OriginsOf(f)
+		for _, b := range f.Blocks {
+			for _, in := range b.Instrs {
+				st, ok := in.(*ssa.Store)
+				if !ok {
+					continue
+				}
+				fa, ok := st.Addr.(*ssa.FieldAddr)
+				if !ok || fieldName(fa) != "limits" {
+					continue
+				}
+				pt, ok := fa.X.Type().Underlying().(*types.Pointer)
+				if !ok || pt.Elem() != types.Type(c.V.CoreType) {
+					continue
+				}
+				n++
+				v := o.Of(st.Val)
+				okV := v.K == "field" && v.S == "Limits" && len(v.Args) == 1 && v.Args[0].K == "param"
+				R.Check("R7", c.P.FuncKey(top), "limits field = configured Limits", c.P.InstrPos(st), okV,
+					"the mint's limits are the configuration's Limits, unmodified (a zero limit means 'none': any recomputation has to treat it so)", "stored value is "+short(v.String(), 140))
+			}
+		}
+	}
+	if n == 0 {
+		R.Unresolved("R7", "writes of the mint's limits field", "none found")
 	}
 }
